@@ -6,12 +6,13 @@
 //!   3 theta_fn num_samples theta_bits no_data_seen                          -> [lb1 lb2 lb3 ub1 ub2 ub3] | ERR
 //!   7 hll_parts lg_k kxq0_bits kxq1_bits cur_min num_at_cur_min -> [raw bitmap composite]  (out-of-order estimator)
 //!   8 mc kind(0 hll,1 cpc,2 theta) lg_k variant n trials seed -> [trials sum_relerr sum_relerr^2 cover1 cover2 cover3]  (Monte Carlo)
+//!   9 hll_union lg_k type n seed -> [est lb1..3 ub1..3 of the HllUnion itself, then of to_sketch(Hll8), is_empty]
 //! Sketch-level ops (public API only; items are the distinct integers seed*2^32 + i, i < n):
 //!   4 hll_sk   lg_k type n seed mode   mode 0 streamed, 1 serialize+deserialize, 2 union of two overlapping halves,
 //!                                      3 union of the same two halves read back from bytes
 //!              -> [est lb1..3 ub1..3 is_empty mode (coupon count | out_of_order)]
 //!   5 cpc_sk   lg_k n seed mode        mode 0 streamed, 1 serialize+deserialize, 2 union of two halves, 3 CpcWrapper of the image
-//!              -> [est lb1..3 ub1..3 is_empty num_coupons|-1]
+//!              -> [est lb1..3 ub1..3 is_empty num_coupons merge_flag]
 //!   6 theta_sk lg_k n seed p_bits(f32) mode   mode 0 update sketch, 1 compact, 2 compact ordered serialize+deserialize,
 //!                                      3 compressed serialize+deserialize
 //!              -> [est lb1..3 ub1..3 num_retained theta64 is_empty]
@@ -123,7 +124,9 @@ impl Family for Fam {
                             let w = CpcWrapper::new(&s.serialize()).unwrap();
                             ob = seven(w.estimate(), |k| w.lower_bound(k), |k| w.upper_bound(k));
                             ob.push(w.is_empty() as i128);
-                            ob.push(-1);
+                            // the wrapper exposes neither the coupon count nor the merge flag: those of the wrapped image
+                            ob.push(s.num_coupons() as i128);
+                            ob.push(s.verif_state().merge_flag as i128);
                             return ob;
                         }
                         if mode == 1 {
@@ -147,6 +150,7 @@ impl Family for Fam {
                 ob = seven(s.estimate(), |k| s.lower_bound(k), |k| s.upper_bound(k));
                 ob.push(s.is_empty() as i128);
                 ob.push(s.num_coupons() as i128);
+                ob.push(s.verif_state().merge_flag as i128);
                 ob
             }
             6 => {
@@ -238,6 +242,22 @@ impl Family for Fam {
                     }
                 }
                 vec![trials as i128, fbits(sum), fbits(sumsq), cover[0] as i128, cover[1] as i128, cover[2] as i128]
+            }
+            9 => {
+                // HllUnion's own estimate and bounds, next to those of its result sketch
+                let (lg_k, t, n, seed) = (a[0] as u8, TYPES[a[1] as usize], a[2] as u64, a[3]);
+                let mut s1 = HllSketch::new(lg_k, t);
+                let mut s2 = HllSketch::new(lg_k, TYPES[((a[1] + 1) % 3) as usize]);
+                for i in 0..(2 * n / 3) { s1.update(item(seed, i)); }
+                for i in (n / 3)..n { s2.update(item(seed, i)); }
+                let mut u = HllUnion::new(lg_k);
+                u.update(&s1);
+                u.update(&s2);
+                let mut ob = seven(u.estimate(), |s| u.lower_bound(s), |s| u.upper_bound(s));
+                let r = u.to_sketch(HllType::Hll8);
+                ob.extend(seven(r.estimate(), |s| r.lower_bound(s), |s| r.upper_bound(s)));
+                ob.push(u.is_empty() as i128);
+                ob
             }
             _ => panic!("bounds: unknown op {code}"),
         }
